@@ -185,6 +185,12 @@ func runC03(c *h.Ctx) {
 				copy(s[pos:], sp)
 			}
 		}
+		if cs.R.Chance(25) {
+			// escape-dense: the quoted form is 2-6x the raw size, forcing output growth inside the string
+			fill := []string{"\x01", "\"", "\\", "\x1f", "\n"}[cs.R.Intn(5)]
+			s = bytes.Repeat([]byte(fill), n/len(fill)+1)[:n]
+			cs.Cover("t2j_escape_dense_strings")
+		}
 		v := tref.Struct(tref.Field{ID: 1, V: tref.Bin(s)})
 		switch cs.R.Intn(4) {
 		case 0:
